@@ -1,6 +1,7 @@
 import PEval.Properties.C04Core
 import PEval.Properties.Pipeline
 import PEval.Properties.C04Dict
+import PEval.Properties.C04Tables
 /-!
 # C04 — AP, APH and mAP equal the interpolated precision-recall area, within [0,1] (root)
 
@@ -14,6 +15,9 @@ import PEval.Properties.C04Dict
 * `PEval/Properties/C04Dict.lean` (namespace `PEval.C04`): `Map` reads its per-label dicts by key (key order
   and extra keys are irrelevant), the label list of the critical-object filter may be any listing of the
   evaluation config's labels, and a threshold `float("inf")` behaves like a number above every score.
+
+* `PEval/Properties/C04Tables.lean` (namespace `PEval.C04`): the decision tables / expressions that `harness/dt_c04.py`
+  extracts from the real `Ap` / `Map` code on every run equal the model's skeletons (`…_code_table_eq_model`).
 
 The core is a separate module only because the composition imports it (no import cycle); the audit
 of `./check C04` imports this root and therefore sees both.
